@@ -780,7 +780,8 @@ def coq_summaries(tag, defs, cases, shard=250, timeout=1500, fn="case_summary", 
                                f"Definition the_cases : list {ctype} := [", ";\n".join(sh), "].",
                                f"Eval vm_compute in ({'flat_map' if fn == 'case_diag' else 'map'} {fn} the_cases)."]) + "\n")
         paths.append(path)
-    with cf.ThreadPoolExecutor(max_workers=16) as ex:
+    # every coqc holds the shared definitions (up to ~1.3 GB in the thorough tier): fewer at a time when there are many
+    with cf.ThreadPoolExecutor(max_workers=16 if len(paths) <= 48 else 6) as ex:
         results = list(ex.map(lambda p: common._coqc(p, timeout), paths))
     out = []
     for k, (rc, so, se) in enumerate(results):
